@@ -3,7 +3,7 @@
 import json, os, sys
 V = os.path.dirname(os.path.dirname(os.path.abspath(__file__)))
 sys.path.insert(0, os.path.join(V, "tools"))
-from props import PROPS, NOT_YET
+from props import CLAIMED as PROPS, NOT_YET
 m = json.load(open(os.path.join(V, "MANIFEST.json")))
 m["checks"] = []
 for pid in sorted(PROPS):
